@@ -16,8 +16,11 @@ import concurrent.futures as cf
 from .smt import Session, HarnessError, short_hash
 
 ROOT = os.path.dirname(os.path.dirname(os.path.abspath(__file__)))
-EVID = os.path.join(ROOT, 'evidence')
-REPLAYS = os.path.join(ROOT, 'replays')
+# RSV_EVIDENCE_DIR redirects evidence and replay files (used when the checks are run against a seeded
+# change of /repo, so that the committed evidence of the unchanged tree is not overwritten)
+EVID = os.environ.get('RSV_EVIDENCE_DIR') or os.path.join(ROOT, 'evidence')
+REPLAYS = os.path.join(os.environ['RSV_EVIDENCE_DIR'], 'replays') if os.environ.get('RSV_EVIDENCE_DIR') \
+    else os.path.join(ROOT, 'replays')
 KNOWN = os.path.join(ROOT, 'known_findings.json')
 
 
